@@ -1,8 +1,9 @@
 /* mpscr.c — correspondence harness for include/mpsc_relaxed_fifo.h (C15, part mpscr).
- * usage: mpscr <num_producers> <spare nodes> <script>
+ * usage: mpscr <num_producers> <spare nodes> <script> [<first producer number> <stride>]
  * script thread 0 is THE consumer (ops: o = trypop); script thread t >= 1 is a producer
- * and uses producer number t-1 only (ops: p<v> = push a node carrying the distinct
- * positive value v).  The popped stub of one sub-queue may be pushed to another one.
+ * and uses producer number first + (t-1)*stride only (default 0, 1; with many producer
+ * numbers and few threads the threads can be given numbers 256 or 65536 apart) (ops: p<v> =
+ * push a node carrying the distinct positive value v).  The popped stub of one sub-queue may be pushed to another one.
  * Nodes circulate: trypop hands back the old stub node (carrying the popped value); the
  * consumer puts it on a LIFO free list from which producers take their next node, so
  * node identities are reused as early as the API contract allows.  The free list itself
@@ -15,6 +16,8 @@ static mpscr_fifo_t* fifo;
 static spsc_node_t* freelist[MAXN];
 static int nfree;
 static int nnodes;
+static long prod_first, prod_stride = 1;
+#define PRODNO(t) ((size_t)(prod_first + ((t) - 1) * prod_stride))
 
 static void name_node(spsc_node_t* n) {
   int id = ++nnodes;
@@ -48,11 +51,11 @@ static void do_pop(void) {
 static void do_op(int t, const char* op) {
   if (op[0] == 'p' && t != 0) {
     long v = atol(op + 1);
-    vr_note("producer %d", t - 1);
+    vr_note("producer %zu", PRODNO(t));
     vr_note("call push %ld", v);
     spsc_node_t* n = get_node();
     n->data = (void*)v;
-    mpscr_fifo_push(fifo, (size_t)(t - 1), n);
+    mpscr_fifo_push(fifo, PRODNO(t), n);
     vr_note("ret push 1");
   } else if (op[0] == 'o' && t == 0) {
     do_pop();
@@ -67,7 +70,8 @@ int main(int argc, char** argv) {
   int np = atoi(argv[1]);
   int spare = atoi(argv[2]);
   vh_parse(argv[3]);
-  if (vh_script.nthreads - 1 > np) { fprintf(stderr, "mpscr: more producer threads than producer numbers\n"); return 2; }
+  if (argc > 5) { prod_first = atol(argv[4]); prod_stride = atol(argv[5]); }
+  if (vh_script.nthreads > 1 && PRODNO(vh_script.nthreads - 1) >= (size_t)np) { fprintf(stderr, "mpscr: more producer threads than producer numbers\n"); return 2; }
   vh_dirty_heap();
   fifo = mpscr_fifo_create((size_t)np);
   if (!fifo) return 2;
